@@ -210,3 +210,28 @@ Proof.
   apply andb_true_iff in Hn. destruct Hn as [Hn _]. apply andb_true_iff in Hn. destruct Hn as [H1 H2].
   split; [exact H1|]. now destruct (memN k unsup).
 Qed.
+
+Lemma spec_hist_ext h : forall unsup r1 r2, (forall c, r1 c = r2 c) -> spec_hist unsup r1 h = spec_hist unsup r2 h.
+Proof.
+  induction h as [|[a|u] t IH]; intros unsup r1 r2 H; [reflexivity| |].
+  - cbn [spec_hist]. f_equal; [now apply spec_out_ext|]. apply IH. now apply spec_rec_ext.
+  - cbn [spec_hist]. f_equal. now apply IH.
+Qed.
+
+Lemma announce_hist_spec h : forall unsup m, forallb wf_hev h = true ->
+  announce_hist unsup m h = spec_hist unsup (abs m) h.
+Proof.
+  induction h as [|[a|u] t IH]; intros unsup m Hwf; [reflexivity| |].
+  - cbn [forallb wf_hev] in Hwf. apply andb_true_iff in Hwf. destruct Hwf as [Ha Ht].
+    cbn [announce_hist spec_hist]. unfold announce.
+    pose proof (announce_pairs_spec unsup (dict_of a) m (dict_of_nodup a) (dict_of_wf a Ha)) as S.
+    destruct (announce_pairs unsup m (dict_of a)) as [[m1 o] ab]. destruct S as (_ & Ho & Hm).
+    f_equal; [exact Ho|]. rewrite (IH unsup m1 Ht). apply spec_hist_ext. intros c. rewrite Hm. reflexivity.
+  - cbn [forallb wf_hev] in Hwf. cbn [announce_hist spec_hist]. f_equal. now apply IH.
+Qed.
+
+Theorem C15_hist : C15_hist_statement.
+Proof.
+  intros h Hwf. unfold P15h. rewrite (announce_hist_spec h [] [] Hwf).
+  rewrite (spec_hist_ext h [] (abs []) (fun _ => None)) by reflexivity. apply outs_eqb_refl.
+Qed.
